@@ -203,9 +203,15 @@ def run(ctx):
         thr = rng.choice(mags + [m + 0.125 for m in mags] + [max(0.0, m - 0.125) for m in mags] + [0.0, 100.0])
         brac(a, dt, Fraction(thr))
         # custom cumulative measures
-        if i % 4 == 0:
+        if i % 2 == 0:
             asig = ctx.aged(eqsig.AccSignal, a, dt)
-            for cname, fn in (('calc_cav', im.calc_cav), ('running-sum', lambda s_: np.cumsum(np.abs(s_.values)))):
+            # monotone measures and NON-monotone ones (signed running sum, running sum of a*|a|): the property quantifies over custom
+            # measure callables without asking for monotonicity, so the first / last sample between the fractions is found by
+            # inspection of every sample, not by bisection
+            for cname, fn in (('calc_cav', im.calc_cav), ('running-sum', lambda s_: np.cumsum(np.abs(s_.values))),
+                              ('signed running sum (non-monotone)', lambda s_: np.cumsum(s_.values) + 2.0 * np.abs(np.cumsum(s_.values)).max() + 1.0),
+                              ('running sum of a|a| shifted positive (non-monotone)',
+                               lambda s_: np.cumsum(s_.values * np.abs(s_.values)) + 2.0 * np.abs(np.cumsum(s_.values * np.abs(s_.values))).max() + 1.0)):
                 series = [fr(x) for x in fn(asig)]
                 r = call_impl(im.calc_sig_dur, asig, start=float(s), end=float(e), im=fn, se=True)
                 ctx.corr('calc_sig_dur[im=' + cname + ']', f"sig_dur_im|T|{w_rat(dt)}|{w_rat(s)}|{w_rat(e)}|{w_rats(series)}", r,
@@ -224,7 +230,8 @@ def run(ctx):
         cur = a.copy()
         hist = []
         for _ in range(rng.randint(2, 5)):
-            op = rng.choice(['generate_cumulative_stats', 'calc_sig_dur', 'calc_brac_dur', 'add_constant', 'add_series', 'reset_values', 'reverse'])
+            op = rng.choice(['generate_cumulative_stats', 'calc_sig_dur', 'calc_brac_dur', 'add_constant', 'add_series', 'reset_values', 'reverse',
+                             'zero_residual(timezone)', 'zero_residual(timezone)', 'read time'])
             hist.append(op)
             try:
                 if op == 'generate_cumulative_stats':
@@ -236,6 +243,13 @@ def run(ctx):
                 elif op == 'add_constant':
                     asig.add_constant(1.0)
                     cur = cur + 1.0
+                elif op == 'zero_residual(timezone)':
+                    # a baseline correction over a time zone starting after the first sample (it works on slices of the time axis)
+                    t0 = dt * rng.randint(1, max(1, len(cur) // 3))
+                    asig.set_zero_residual_displacement_and_velocity(timezone=(t0, rng.choice([None, dt * (len(cur) - 2)])))
+                    cur = np.array(asig.values, copy=True)
+                elif op == 'read time':
+                    _ = asig.time
                 elif op == 'add_series':
                     d = gen.dyadic_record(rng, len(cur))
                     asig.add_series(d)
